@@ -6,6 +6,7 @@ import (
 	"time"
 
 	"go.minekube.com/common/minecraft/component"
+	"go.minekube.com/gate/pkg/edition/java/auth"
 	"go.minekube.com/gate/pkg/edition/java/config"
 	"go.minekube.com/gate/pkg/edition/java/proto/version"
 	"go.minekube.com/gate/pkg/edition/java/proxy"
@@ -71,6 +72,11 @@ func pickProtocol(r *Run) proto.Protocol {
 
 // newClassic builds the world. mutate may change the config before proxy.New.
 func newClassic(r *Run, servers []string, mutate func(cfg *config.Config)) *classicWorld {
+	return newClassicAuth(r, servers, mutate, nil)
+}
+
+// newClassicAuth is newClassic with an optional authenticator factory (online mode).
+func newClassicAuth(r *Run, servers []string, mutate func(cfg *config.Config), mkAuth func(w *classicWorld) auth.Authenticator) *classicWorld {
 	w := &classicWorld{r: r, backends: map[string]*backendModel{}}
 	w.s = r.NewSim(3_000_000)
 	w.seg = r.SegChoice()
@@ -95,7 +101,11 @@ func newClassic(r *Run, servers []string, mutate func(cfg *config.Config)) *clas
 	}
 	w.cfg = &cfg
 	w.ev = newSimEvent()
-	p, err := proxy.New(proxy.Options{Config: &cfg, EventMgr: w.ev})
+	opts := proxy.Options{Config: &cfg, EventMgr: w.ev}
+	if mkAuth != nil {
+		opts.Authenticator = mkAuth(w)
+	}
+	p, err := proxy.New(opts)
 	if err != nil {
 		r.HarnessError("proxy.New: %v", err)
 		r.Abort()
